@@ -1,0 +1,10 @@
+//! C27 hook: read access to the gates of a `DefGateSequence` (its fields are crate-private and it has
+//! no accessor), so that the correspondence harness can project a `DEFGATE … AS SEQUENCE` from the value
+//! quil-rs actually holds.
+
+use crate::instruction::{DefGateSequence, Gate};
+
+/// The gates of a sequence gate definition, in order.
+pub fn sequence_gates(sequence: &DefGateSequence) -> Vec<Gate> {
+    sequence.gates.clone()
+}
